@@ -149,3 +149,45 @@ func verifUnixMicroRoundTrip(t time.Time) (time.Time, error) {
 func verifUnixNanoRoundTrip(t time.Time) (time.Time, error) {
 	return ToUnixNano(UnixNanoToString(t))
 }
+
+// ---------------------------------------------------------------------------
+// Dates, times, date-times and durations (C13, "at their format's resolution ... in the syntax the
+// declared format prescribes"): the text written for an instant is time.Time.Format of THAT instant (no
+// zone conversion, no truncation) with the layout of the format - RFC 3339 full-date "2006-01-02",
+// partial-time "15:04:05", date-time time.RFC3339 - and the decoder parses with the SAME layout. The
+// inverse law of the time package (Parse(layout, t.Format(layout)) is t at the layout's resolution) is
+// the standard library's; Format and Parse are uninterpreted here.
+// ---------------------------------------------------------------------------
+
+func specParseTime(layout, s string) time.Time {
+	t, _ := time.Parse(layout, s)
+	return t
+}
+
+func specParseTimeOK(layout, s string) bool {
+	_, err := time.Parse(layout, s)
+	return err == nil
+}
+
+//@ func verifDateRoundTrip(t time.Time) (r time.Time, err error)
+//@   ensures rt: r == specParseTime("2006-01-02", t.Format("2006-01-02")) && (err == nil) == specParseTimeOK("2006-01-02", t.Format("2006-01-02"))
+func verifDateRoundTrip(t time.Time) (time.Time, error) { return ToDate(DateToString(t)) }
+
+//@ func verifTimeRoundTrip(t time.Time) (r time.Time, err error)
+//@   ensures rt: r == specParseTime("15:04:05", t.Format("15:04:05")) && (err == nil) == specParseTimeOK("15:04:05", t.Format("15:04:05"))
+func verifTimeRoundTrip(t time.Time) (time.Time, error) { return ToTime(TimeToString(t)) }
+
+//@ func verifDateTimeRoundTrip(t time.Time) (r time.Time, err error)
+//@   ensures rt: r == specParseTime(time.RFC3339, t.Format(time.RFC3339)) && (err == nil) == specParseTimeOK(time.RFC3339, t.Format(time.RFC3339))
+func verifDateTimeRoundTrip(t time.Time) (time.Time, error) { return ToDateTime(DateTimeToString(t)) }
+
+func specParseDuration(s string) time.Duration {
+	d, _ := time.ParseDuration(s)
+	return d
+}
+
+//@ func verifDurationRoundTrip(d time.Duration) (r time.Duration, err error)
+//@   ensures rt: r == specParseDuration(d.String())
+func verifDurationRoundTrip(d time.Duration) (time.Duration, error) {
+	return ToDuration(DurationToString(d))
+}
